@@ -188,5 +188,169 @@ func TestVerif_C39(t *testing.T) {
 	}
 	runPhase("seq", false, r.N(3, 12))
 	runPhase("conc", true, r.N(6, 40))
+	c39ForwardFault(t, r)
 	r.Require("answered_by_target", 20)
+	r.Require("fwd_fault_error_responses_seen", 1)
+}
+
+// c39ForwardFault: a transit fails to forward one request (its link to the target is closed at
+// the moment it writes the forwarded CONTROL_REQUEST; fault injected from the write tap) while the
+// same asker has other requests in flight through the same transit (their answers are held back
+// by a delay at the responder's CONTROL_RESPONSE write). The transit's error report is a response
+// too: it must reach the asker as the answer to THAT request only. The asker first sends j
+// requests to the transit itself so that its own numbering and the transit's forwarding numbering
+// differ (otherwise an id mix-up between the two would be invisible).
+func c39ForwardFault(t *testing.T, r *verifkit.R) {
+	topos := c39Topos()
+	r.Cases("fwd-fault", r.N(6, 60), func(ci int, rng *verifkit.Rand) {
+		spec := topos[ci%2] // star / two transits: node 3 is the transit next to targets 4 and 5
+		askers := []int{0, 1, 2}
+		if ci%2 == 1 {
+			askers = []int{0, 1}
+		}
+		tap := mkInstallTap()
+		defer tap.close()
+		m, err := mkBuild(t, spec)
+		if err != nil {
+			r.Inconclusive("mesh did not come up: " + err.Error())
+			return
+		}
+		defer m.stop()
+		if err := c39WaitAgents(m, 60*time.Second); err != nil {
+			r.Inconclusive(err.Error())
+			return
+		}
+		asker := askers[rng.Intn(len(askers))]
+		tr := 3
+		x := 4 + rng.Intn(2)
+		y := 9 - x
+		k := rng.Range(3, 8)
+		j := rng.Range(1, k)
+		noise := ci%3 == 2
+		T, X, Y := m.nodes[tr].a, m.nodes[x].a, m.nodes[y].a
+		var fmu sync.Mutex
+		armed, kills := false, 0
+		tap.mu.Lock()
+		tap.onPayload = func(ev *mkFrameEv, payload []byte) {
+			if !ev.Write {
+				return
+			}
+			if ev.Type == protocol.FrameControlResponse && ev.Local == Y.ID() {
+				time.Sleep(120 * time.Millisecond) // keep the asker's other requests in flight
+				return
+			}
+			if ev.Type == protocol.FrameControlRequest && ev.Local == T.ID() && ev.Remote == X.ID() {
+				fmu.Lock()
+				fire := armed && kills == 0
+				if fire {
+					kills++
+				}
+				fmu.Unlock()
+				if fire {
+					if c := T.peerMgr.GetPeer(X.ID()); c != nil {
+						c.Close()
+					}
+				}
+			}
+		}
+		tap.mu.Unlock()
+		status := func(from, to int, timeout time.Duration) c39Call {
+			c := c39Call{Requester: m.nodes[from].name, Target: m.nodes[to].name}
+			ctx, cancel := context.WithTimeout(context.Background(), timeout)
+			defer cancel()
+			resp, err := m.nodes[from].a.SendControlRequest(ctx, m.nodes[to].a.ID(), protocol.ControlTypeStatus)
+			if err != nil {
+				c.Err = err.Error()
+				c.IdleMs = time.Since(time.Unix(0, tap.lastData.Load())).Milliseconds()
+				return c
+			}
+			var st struct {
+				AgentID string `json:"agent_id"`
+			}
+			if !resp.Success || json.Unmarshal(resp.Data, &st) != nil {
+				c.Err = fmt.Sprintf("unsuccessful response: %q", string(resp.Data))
+				c.Round = -1 // marks "an (error) response was delivered"
+				return c
+			}
+			if id, err := identity.ParseAgentID(st.AgentID); err == nil {
+				c.Got = m.name(id)
+			} else {
+				c.Got = st.AgentID
+			}
+			return c
+		}
+		var history []c39Call
+		for i := 0; i < j; i++ { // prelude: shifts the asker's numbering against the transit's
+			history = append(history, status(asker, tr, 6*time.Second))
+		}
+		yCalls := make([]c39Call, k)
+		var wg sync.WaitGroup
+		for i := 0; i < k; i++ {
+			wg.Add(1)
+			go func(i int) { defer wg.Done(); yCalls[i] = status(asker, y, 10*time.Second) }(i)
+			time.Sleep(2 * time.Millisecond) // keep the ids in issue order
+		}
+		var noiseCalls []c39Call
+		if noise {
+			other := askers[(rng.Intn(len(askers)-1)+1+indexOf(askers, asker))%len(askers)]
+			n := 1 + rng.Intn(3)
+			noiseCalls = make([]c39Call, n)
+			for i := 0; i < n; i++ {
+				wg.Add(1)
+				go func(i int) { defer wg.Done(); noiseCalls[i] = status(other, y, 10*time.Second) }(i)
+			}
+		}
+		time.Sleep(30 * time.Millisecond)
+		fmu.Lock()
+		armed = true
+		fmu.Unlock()
+		xCall := status(asker, x, 4*time.Second)
+		wg.Wait()
+		fmu.Lock()
+		killed := kills
+		fmu.Unlock()
+		r.Add("control_requests", len(history)+k+1+len(noiseCalls))
+		r.Add("fwd_fault_links_killed_at_forward", killed)
+		if xCall.Round == -1 {
+			r.Add("fwd_fault_error_responses_seen", 1)
+		}
+		all := append(append(append([]c39Call{}, history...), yCalls...), noiseCalls...)
+		all = append(all, xCall)
+		if xCall.Err == "" && xCall.Got != xCall.Target {
+			r.Violation("fwd-fault:answer-of-another-agent-delivered", "fwd-fault", ci,
+				fmt.Sprintf("%s asked %s (the transit's link to it was closed while forwarding) and was handed the answer of %s", xCall.Requester, xCall.Target, xCall.Got), all)
+		}
+		for _, c := range append(append(append([]c39Call{}, history...), yCalls...), noiseCalls...) {
+			switch {
+			case c.Err == "" && c.Got == c.Target:
+				r.Add("answered_by_target", 1)
+			case c.Err == "":
+				r.Violation("fwd-fault:answer-of-another-agent-delivered", "fwd-fault", ci,
+					fmt.Sprintf("%s asked %s for its status and was handed the answer of %s", c.Requester, c.Target, c.Got), all)
+			case c.Round == -1:
+				r.Violation("fwd-fault:error-report-of-another-request-delivered", "fwd-fault", ci,
+					fmt.Sprintf("%s asked %s (path not touched by the fault) and was handed an error response: %s; the only failing forward was %s -> %s at transit %s, whose link to %s was closed as it wrote the forwarded request (that asker's own call returned: got=%q err=%q)",
+						c.Requester, c.Target, c.Err, xCall.Requester, xCall.Target, m.nodes[tr].name, xCall.Target, xCall.Got, xCall.Err), all)
+			case c.IdleMs < 2000:
+				r.Inconclusive(fmt.Sprintf("fwd-fault: request %s->%s got no answer while control frames were still moving: %s", c.Requester, c.Target, c.Err))
+			default:
+				r.Violation("fwd-fault:answer-never-reached-asker", "fwd-fault", ci,
+					fmt.Sprintf("%s asked %s (path not touched by the fault) and never received an answer (%s)", c.Requester, c.Target, c.Err), all)
+			}
+		}
+		r.Eval(fmt.Sprintf("fwdfault/%d/%d/%d/%d/%d/%v", ci%2, asker, x, k, j, noise), killed > 0)
+		if r.NeedSample() {
+			r.Sample(map[string]any{"topology": spec.Names, "phase": "fwd-fault", "asker": m.nodes[asker].name, "failing_target": m.nodes[x].name, "held_target": m.nodes[y].name,
+				"requests_in_flight": k, "prelude_requests": j, "link_killed_at_forward": killed, "failing_call": xCall})
+		}
+	})
+}
+
+func indexOf(xs []int, v int) int {
+	for i, x := range xs {
+		if x == v {
+			return i
+		}
+	}
+	return 0
 }
